@@ -222,8 +222,16 @@ def check_case(ctx, case):
         ctx.count("adjacent_centres")
     fkey = kind
     P = "C13" if idfam == "main" else f"C13/id-{idfam}"
+    kw = {}
+    if kind == "ez" and case["bo"] and cls != "MolGraph":
+        # the options of the bond-order regeneration: the molecule's true total charge given or not, charged fragments
+        # allowed or not - E/Z of the isolated double bonds has to survive each combination
+        q = sum(a.GetFormalCharge() for a in m.GetAtoms())
+        kw = [{}, {"charge": q}, {"charge": q, "allow_charged_fragments": True}, {"allow_charged_fragments": True}][case["iseed"] % 4]
+        ctx.count("export_options:" + ("+".join(sorted(kw)) or "default"))
+        fkey = kind + ("/" + "+".join(f"{k}={int(v)}" for k, v in sorted(kw.items())) if kw else "")
     try:
-        mol, _ = g._to_rdmol(generate_bond_orders=case["bo"])
+        mol, _ = g._to_rdmol(generate_bond_orders=case["bo"], **kw)
     except Exception as e:  # noqa: BLE001
         ctx.violate(f"{P}/export-raises:{type(e).__name__}/{cls}/{fkey}/bond-orders={int(case['bo'])}", f"_to_rdmol raised {e!r} ({len(pg['atoms'])} atoms)", case)
         return
